@@ -66,6 +66,7 @@ type EngineRunner struct {
 	ref     *refModel
 	shadow  *shadowFS
 	iter    *kv.Iterator
+	iterRef *iterRef
 	mergeSeen []uint32
 	// first data file written entirely under the current DataFileSize (files that were
 	// active in an earlier session may have been filled under another limit)
